@@ -103,9 +103,12 @@ def child_inherits(ctx):
             or (isinstance(c.func, ast.Attribute) and c.func.attr == 'glomit')]
     for c in disp:
         dn = cfg.node_containing(c)
+        nonexc = lambda lab: lab != 'exc'
         pre = [t for t in tomb if cfg.dominates(cfg.node_of(t), dn) and isinstance(t.value, ast.Constant)
-               and t.value.value is None and dn in [s for s, _ in cfg.node_of(t).succ]]
-        ctx.ob(len(pre) == 1, u, 'argument mode ends at a T / glomit spec (MIN_MODE cleared before `%s`)' % norm(c), node=c)
+               and t.value.value is None
+               and not any(o is not t and cfg.find_path(cfg.node_of(t), {cfg.node_of(o)}, labels=nonexc) is not None
+                           and cfg.find_path(cfg.node_of(o), {dn}, labels=nonexc) is not None for o in tomb)]
+        ctx.ob(len(pre) >= 1, u, 'argument mode ends at a T / glomit spec (MIN_MODE cleared before `%s`)' % norm(c), node=c)
     ctx.floor(4)
 
 
